@@ -1,6 +1,7 @@
 package crdt
 
 import (
+	"math"
 	"testing"
 
 	"pgregory.net/rapid"
@@ -70,7 +71,8 @@ func runC16(tb ev.TB, p c16Prog) ev.Result {
 	union.Union(src.Model)
 	total := len(union)
 	// bias the bound to the interesting values
-	cands := []int{0, 1, total - 1, total, total + 1, total + 3, p.N % (total + 4), p.N % (total + 4), (p.N / 7) % (total + 4)}
+	cands := []int{0, 1, total - 1, total, total + 1, total + 3, p.N % (total + 4), p.N % (total + 4), (p.N / 7) % (total + 4), p.N % (total + 4), (p.N / 7) % (total + 4),
+		1000 * (total + 1), math.MaxInt, 1 << 62} // "no limit" sentinels callers pass
 	bound := cands[p.N%len(cands)]
 	if bound < 0 {
 		bound = 0
@@ -228,6 +230,6 @@ classify:
 
 func TestC16(t *testing.T) {
 	c := ev.Get("C16")
-	c.Rule = "a generated multi-replica program (as C01, no final exchange) builds the logs; two of its replicas and a bound n in [0,total+3] (biased to 0,1,total-1,total,total+1) are drawn; A.Join(B,n) is compared with the last min(n,total) entries of the reference sort of A's set ∪ B's set (exact when the ordering is strict-total there, 'nothing excluded is strictly newer' otherwise), heads with the unreferenced entries among the kept ones, and for n >= total with a twin replica that did the unbounded merge. In a third of the cases the (now possibly windowed) log then makes a second bounded merge from another replica; it is compared with a twin that made the same first merge and the unbounded form of the second one. Non-trivial = merged set has a fork and (n > total or the truncation keeps a forked/multi-headed suffix); distinct = distinct program."
+	c.Rule = "a generated multi-replica program (as C01, no final exchange) builds the logs; two of its replicas and a bound n in [0,total+3] (biased to 0,1,total-1,total,total+1; sometimes a 'no limit' sentinel: 1000*(total+1), 2^62, MaxInt) are drawn; A.Join(B,n) is compared with the last min(n,total) entries of the reference sort of A's set ∪ B's set (exact when the ordering is strict-total there, 'nothing excluded is strictly newer' otherwise), heads with the unreferenced entries among the kept ones, and for n >= total with a twin replica that did the unbounded merge. In a third of the cases the (now possibly windowed) log then makes a second bounded merge from another replica; it is compared with a twin that made the same first merge and the unbounded form of the second one. Non-trivial = merged set has a fork and (n > total or the truncation keeps a forked/multi-headed suffix); distinct = distinct program."
 	ev.Check(t, "C16", genC16, runC16)
 }
